@@ -119,6 +119,7 @@ impl World for Reactions {
             fault: TFault::None,
             log: false,
             clone_config: false,
+            stale_state: false,
         });
         let data = Arc::new(Mutex::new(ObsData::default()));
         let mut obs = Obs::<RealP>::new(tcase, data);
